@@ -402,3 +402,29 @@ def expected_grids(spec):
     if {'edge_node', 'edge_face'} & tables or spec.get('edge_dimension') is True:
         out['edge'] = (len(edge_list),)
     return out
+
+
+def expected_geometry_names(spec):
+    """Oracle: the variables that define the geometry of ``spec`` (independent of emsarray's inventory)."""
+    conv = spec['conv']
+    if conv == 'cf1d':
+        names = [spec.get('lon_name', 'lon'), spec.get('lat_name', 'lat')]
+        if spec.get('bounds'):
+            names += ['lon_bnds', 'lat_bnds']
+        return names
+    if conv in ('cf2d', 'shoc_simple'):
+        d = 'longitude' if conv == 'shoc_simple' else 'lon'
+        e = 'latitude' if conv == 'shoc_simple' else 'lat'
+        names = [spec.get('lon_name', d), spec.get('lat_name', e)]
+        if spec.get('bounds'):
+            names += ['lon_bnds', 'lat_bnds']
+        return names
+    if conv == 'shoc_standard':
+        return ['x_centre', 'y_centre', 'x_grid', 'y_grid', 'x_left', 'y_left', 'x_back', 'y_back']
+    names = ['Mesh2', 'Mesh2_face_nodes', 'Mesh2_node_x', 'Mesh2_node_y']
+    t = set(spec.get('tables', ()))
+    names += [n for k, n in (('edge_node', 'Mesh2_edge_nodes'), ('face_edge', 'Mesh2_face_edges'), ('edge_face', 'Mesh2_edge_faces'),
+                             ('face_face', 'Mesh2_face_links')) if k in t]
+    if spec.get('face_coords'):
+        names += ['Mesh2_face_x', 'Mesh2_face_y']
+    return names
